@@ -116,6 +116,15 @@ def gen_cases(rng, tier):
             c["t_sample"] = [0.0, c["t_max"]]
             c["policy"] = "on_iteration"
             c["state"] = [float(rng.choice([0, 1, 2, 3, 6, 10])) for _ in c["state"]]
+        # coarse explicit Euler steps: a step may take more out of a cell than it holds (amounts overshoot below zero and
+        # oscillate), the laws are linear and hold at any step size
+        if c["engine"] == "euler" and rng.random() < 0.4:
+            c["dt"] *= 2.0 ** rng.randint(3, 5)
+            c["t_max"] = c["dt"] * rng.randint(2, 6)
+            c["interval"] = c["dt"]
+            c["t_sample"] = [0.0, c["t_max"]]
+            c["policy"] = "on_iteration"
+            c["coarse_euler"] = True
         c["laws"] = usable_laws(c)
         if not c["laws"]:
             continue
@@ -162,7 +171,7 @@ def check(run):
     events = 0
     for it in items:
         c = it["case"]
-        run.count("engine:" + c["engine"])
+        run.count("engine:" + c["engine"] + (":coarse_steps" if c.get("coarse_euler") or c.get("style") == "coarse_leap" else ""))
         run.count("space:" + c["desc"]["space"]["type"])
         run.count("laws:%d" % len(c["laws"]))
         run.count("reactions:%d" % len(c["desc"]["reactions"]))
